@@ -278,6 +278,16 @@ def cases(tier, seed):
             for kind in ("per", "scalar"):
                 for op in reader_variants(dt, keys, mod, False) + mutator_variants(dt, keys, mod, 0, 0):
                     yield dict(base, vals=init_vals(n, kind), ops=[op])
+    # ---- Part D: addition with different value dtypes (values chosen so that the narrower dtype alone would overflow)
+    for keys in ([5], [1, 8, 15], [-9, 0, 5, 12]):
+        for mod in (None, 1, 7):
+            n = len(keys)
+            for (d1, a), (d2, b) in ((("int8", 100), ("int64", 100)), (("int64", 100), ("int8", 100)), (("int64", 3), ("float64", 0.5)),
+                                      (("uint8", 200), ("int64", -300)), (("int16", 30000), ("int32", 30000)), (("float32", 1.5), ("int64", 2)),
+                                      (("int64", 7), ("int64", 9))):
+                for how in ("+", "+="):
+                    yield {"part": "D", "keys": keys, "mod": mod, "dt1": d1, "v1": [a + (i if d1[0] != "f" else 0) for i in range(n)],
+                           "dt2": d2, "v2": [b for _ in range(n)], "how": how}
     # ---- Part B: histories
     for dt, keys, mod in (STRUCT_B_Q if quick else STRUCT_B_T):
         for kind in ("per", "scalar"):
@@ -329,6 +339,8 @@ MUTATORS = {"set1", "setv", "setp", "fill", "iaddn", "iaddt"}
 
 def nontrivial(case):
     keys = case["keys"]
+    if case.get("part") == "D":
+        return case["dt1"] != case["dt2"]
     m = eff_mod(keys, case["mod"])
     if len({k % m for k in keys}) < len(keys):
         return True
@@ -408,9 +420,36 @@ def _compare(t, D, keys, dt, absent, label, st, ctx):
                "sig": _exc(e, f"{label}:contains", dt)}
 
 
+def _mixed_addition(case):
+    """Part D: addition of two tables over the same keys whose VALUE dtypes differ (the dictionary adds the numbers)"""
+    from npstructures import HashTable
+    keys, mod = list(case["keys"]), case["mod"]
+    v1 = np.array(case["v1"], dtype=case["dt1"])
+    v2 = np.array(case["v2"], dtype=case["dt2"])
+    exp = [a + b for a, b in zip(v1.tolist(), v2.tolist())]
+    ctx = f"HashTable({keys}, {v1!r}, mod={mod}) {case['how']} HashTable({keys}, {v2!r}, mod={mod})"
+    try:
+        t1 = HashTable(np.array(keys, dtype=np.int64), v1, mod=mod)
+        t2 = HashTable(np.array(keys, dtype=np.int64), v2, mod=mod)
+        if case["how"] == "+=":
+            t1 += t2
+            res = t1
+        else:
+            res = t1 + t2
+        got = np.asarray(res[np.array(keys, dtype=np.int64)]).tolist()
+    except Exception as e:
+        yield {"msg": f"{ctx}: raised {type(e).__name__}: {str(e)[:160]}", "sig": f"raised:{type(e).__name__}:mixed-dtype-addition:{case['how']}"}
+        return
+    if len(got) != len(exp) or any(abs(g - e) > 1e-9 * max(1, abs(e)) for g, e in zip(got, exp)):
+        yield {"msg": f"{ctx}: values {got}, the dictionary gives {exp}", "sig": f"wrong:mixed-dtype-addition:{case['how']}"}
+
+
 def _violations(case):
     import_repo()
     from npstructures import HashSet
+    if case.get("part") == "D":
+        yield from _mixed_addition(case)
+        return
     dt, keys, vals, mod = case["dtype"], list(case["keys"]), case["vals"], case["mod"]
     n = len(keys)
     ctx = f"HashTable(np.array({keys},'{dt}'), {vals}, mod={mod})"
